@@ -283,6 +283,9 @@ func NewFromYaml(data []byte) (*Config, error) {
 
 	if c.ProfileAddress == "" && yc.ProfilePort > 0 {
 		c.ProfileAddress = net.JoinHostPort(yc.ProfileHost, strconv.Itoa(yc.ProfilePort))
+	} else if c.ProfileAddress == "none" {
+		// Explicitly disabled, same as the --profile_address flag.
+		c.ProfileAddress = ""
 	}
 
 	if c.MetricsDurationBuckets != nil {
